@@ -14,7 +14,6 @@ NOT_APPLICABLE = {
     'C08': 'Layout::process_sequences on a symbolic macro does not finish under Kani (68 s for one concrete macro); not claimed on a concrete-input harness',
     'C12': 'acceptance loop is parser code over patricia_tree, run-time logic is Kanata state; a lemma about prefix-freedom would be a proof about a model',
     'C13': 'one FxHashMap::get makes update_keys intractable for CBMC even with a concrete key; the filter closure mutates a captured counter (Verus rejects)',
-    'C14': 'add_key_output_from_action_to_key_pos: Kani route measured infeasible even with the map-touching callee stubbed; handle_repeat_actual is a Kanata method over hash maps',
     'C15': 'file I/O, a thread, and "behaves like a fresh instance" (relational)',
     'C16': 'a relation between two configurations through the whole 4000-line parser',
     'C18': 'hash containers mutated inside Kanata methods; toggle alternation is a cross-call history',
